@@ -675,6 +675,17 @@ theorem mem_toReplay {log : List (Option (Item α))} {frm : Nat} {it : Item α} 
   simp at hid; subst hid
   exact List.mem_of_mem_drop hx
 
+/-- whatever `After` yields was appended to that stream's log -/
+theorem replayItems_mem {c : Conn α} {sid frm : Nat} {items : List (Item α)} (h : replayItems c sid frm = some items) :
+    ∀ it ∈ items, ∃ log, c.store sid = some log ∧ some it ∈ log := by
+  intro it hit
+  cases hst : c.cfg.hasStore with
+  | true =>
+    obtain ⟨_, log, hlog, _, rfl⟩ := replayItems_some hst h
+    exact ⟨log, hlog, mem_toReplay hit⟩
+  | false =>
+    rw [replayItems_nostore hst h] at hit; cases hit
+
 theorem inv10_get {c : Conn α} (hw : Inv c) (h : Inv10 c) (hdr : Hdr) (ver : Ver) (budget : Option Nat) :
     Inv10 (get c hdr ver budget) := by
   unfold get
@@ -689,16 +700,8 @@ theorem inv10_get {c : Conn α} (hw : Inv c) (h : Inv10 c) (hdr : Hdr) (ver : Ve
         · rename_i items hitems
           refine inv10_getGo hw h _ _ _ _ items ?_
           intro it hit
-          unfold replayItems at hitems
-          split at hitems
-          · split at hitems
-            · cases hitems
-            · cases hlog : c.store hdr.sid with
-              | none => rw [hlog] at hitems; cases hitems
-              | some log =>
-                rw [hlog] at hitems; simp at hitems; subst hitems
-                exact h.routed_log hdr.sid log hlog it (mem_toReplay hit)
-          · cases hitems; cases hit
+          obtain ⟨log, hlog, hmem⟩ := replayItems_mem hitems it hit
+          exact h.routed_log hdr.sid log hlog it hmem
 
 theorem inv10_step {c : Conn α} (hw : Inv c) (h : Inv10 c) (l : Label α) : Inv10 (step c l) := by
   unfold step stepR
@@ -710,6 +713,9 @@ theorem inv10_step {c : Conn α} (hw : Inv c) (h : Inv10 c) (l : Label α) : Inv
   | get hdr ver budget => exact inv10_get hw h _ _ _
   | sclose req retry => exact inv10_sclose hw h _ _
   | «end» => exact ⟨h.hist_lt, h.req_hist, h.str_hist, fun s hs p hp it hit => routed_mono rfl (fun _ _ hv => hv) (h.pend s hs p hp it hit),
+      fun j e he o ho it hit => routed_mono rfl (fun _ _ hv => hv) (h.routed_ex j e he o ho it hit),
+      fun sid log hl it hit => routed_mono rfl (fun _ _ hv => hv) (h.routed_log sid log hl it hit)⟩
+  | evict sid n => exact ⟨h.hist_lt, h.req_hist, h.str_hist, fun s hs p hp it hit => routed_mono rfl (fun _ _ hv => hv) (h.pend s hs p hp it hit),
       fun j e he o ho it hit => routed_mono rfl (fun _ _ hv => hv) (h.routed_ex j e he o ho it hit),
       fun sid log hl it hit => routed_mono rfl (fun _ _ hv => hv) (h.routed_log sid log hl it hit)⟩
 
